@@ -1527,6 +1527,39 @@ fn run_simd(c: &SimdCase) -> Outcome {
     exp.sort();
     let tail = l.len().max(r.len()) >= 8;
     let cls = format!("{}{}", if simd_path { "simd" } else { "scalar" }, if tail { "/tail>=8" } else { "" });
+    // (coverage audit) the helper entry points of the same comparator: element-wise comparison and minimum search,
+    // on the runs themselves and on unsorted arrangements of them (reversed; right ++ reversed left)
+    {
+        let n = l.len().min(r.len());
+        let want: Vec<std::cmp::Ordering> = l[..n].iter().zip(&r[..n]).map(|(a, b)| a.cmp(b)).collect();
+        match cmp.compare_i32_slices(&l[..n], &r[..n]) {
+            Ok(g) if g == want => {}
+            other => return enumr::fail("variants_agree", format!("compare_i32_slices/{cls}"), format!("compare_i32_slices({}, {}) = {:?}, element-wise cmp gives {:?}", brief_vec(&l[..n]), brief_vec(&r[..n]), other, want)),
+        }
+        if l.len() != r.len() && cmp.compare_i32_slices(&l, &r).is_ok() {
+            return enumr::fail("variants_agree", format!("compare_i32_slices/unequal_lengths_accepted/{cls}"), format!("compare_i32_slices accepted slices of {} and {} elements", l.len(), r.len()));
+        }
+        let pairs: Vec<(i32, i32)> = l[..n].iter().copied().zip(r[..n].iter().copied()).collect();
+        let g = SimdOperations::parallel_compare_i32(&pairs);
+        if g != want {
+            return enumr::fail("variants_agree", format!("parallel_compare_i32/{cls}"), format!("parallel_compare_i32({pairs:?}) = {g:?}, want {want:?}"));
+        }
+        let mut rev = l.clone();
+        rev.reverse();
+        let mut mixed = r.clone();
+        mixed.extend(&rev);
+        let first_min = |v: &[i32]| v.iter().enumerate().min_by_key(|(_, x)| **x).map(|(i, x)| (i, *x));
+        for v in [&l, &rev, &mixed] {
+            let g = cmp.find_min_i32(v);
+            if g != first_min(v) {
+                return enumr::fail("variants_agree", format!("find_min_i32/{cls}"), format!("find_min_i32({}) = {g:?}, the first minimum is {:?}", brief_vec(v), first_min(v)));
+            }
+        }
+        let g = SimdOperations::find_multiple_mins(&[&rev, &mixed, &[]]);
+        if g != vec![first_min(&rev), first_min(&mixed), None] {
+            return enumr::fail("variants_agree", format!("find_multiple_mins/{cls}"), format!("find_multiple_mins([{}, {}, []]) = {g:?}", brief_vec(&rev), brief_vec(&mixed)));
+        }
+    }
     if got == exp {
         if exp.is_empty() {
             Outcome::trivial(&cls)
